@@ -14,4 +14,16 @@ def wrap_instances(ob="O2"):
                  desc="kalign_run stage order, de-alignment, argument plumbing, release of parameters/tasks")]
 
 def instances(tier):
-    return wrap_instances()
+    import dataclasses
+    from vk.props.shared import MK_MSA_UNWIND
+    out = wrap_instances()
+    for ns, lm in ([(2, 2), (3, 2)] if tier == "quick" else [(2, 1), (2, 2), (2, 3), (3, 2), (3, 3), (4, 2)]):
+        out.append(Inst(ob="O2", name="dealign_ns%d_l%d" % (ns, lm), harness="c04_dealign.c", defs={"VK_NS": ns, "VK_LMAX": lm},
+                        srcs=["lib/src/msa_op.c", "lib/src/alphabet.c"], models=["models/vin.c", "models/msg.c", "models/msa_stub.c", "models/ctype.c", "models/log_stub.c"],
+                        native_srcs=["lib/src/tldevel.c", "lib/src/msa_alloc.c"], unwind=max(ns, lm) + 3, unwind_pat=MK_MSA_UNWIND,
+                        nb=ns * (2 * lm + 3), timeout=300, mem_gb=4, funcs=["detect_aligned", "dealign_msa"],
+                        bound="%d sequences, lengths 0..%d, gap counts 0..3, all symbolic" % (ns, lm), desc="status classification and de-alignment"))
+    # O1: reader post-conditions (only letters are stored, everything else is at most a gap count) - shared with C05
+    from vk.props.C05 import read_inst
+    out.append(dataclasses.replace(read_inst(1, 3, 2, 0, timeout=1500), ob="O1", name="reader_fasta_l3x2"))
+    return out
